@@ -390,6 +390,39 @@ type itOpts struct {
 	PrefetchSize                                  int
 }
 
+var (
+	seekClampOnce sync.Once
+	seekClampIs   bool
+)
+
+// seekClampFixed reports whether Iterator.Seek clamps a forward seek key below the Prefix to the
+// Prefix (the F33 repair), probed on the implementation under test.
+func seekClampFixed() bool {
+	seekClampOnce.Do(func() {
+		db, err := openSysDB("", sysOpts{InMemory: true, NKeep: 1, MaxLevels: 4, TableSize: 1 << 20, BaseLevelSize: 8 << 10})
+		if err != nil {
+			return
+		}
+		defer db.Close()
+		if err := db.Update(func(tx *badger.Txn) error {
+			if err := tx.Set([]byte("a"), []byte("1")); err != nil {
+				return err
+			}
+			return tx.Set([]byte("b"), []byte("2"))
+		}); err != nil {
+			return
+		}
+		db.View(func(tx *badger.Txn) error {
+			it := tx.NewIterator(badger.IteratorOptions{Prefix: []byte("b")})
+			defer it.Close()
+			it.Seek([]byte("a"))
+			seekClampIs = it.Valid() && string(it.Item().Key()) == "b"
+			return nil
+		})
+	})
+	return seekClampIs
+}
+
 func (h *hist) iterate(t int, o itOpts, seek []byte) {
 	tx := h.txns[t]
 	io := badger.IteratorOptions{Reverse: o.Reverse, AllVersions: o.All, Prefix: o.Prefix, SinceTs: o.Since,
@@ -425,7 +458,13 @@ func (h *hist) iterate(t int, o itOpts, seek []byte) {
 		ts[i] = entTerm(x.Key, x.Ver, x.Meta, x.UMeta, x.Exp, x.Val)
 	}
 	all := o.All || o.PrefixIsKey
-	h.emit(fmt.Sprintf("(Iterate %d (mkIO %s %s %s %s %d %s) %s %s)", t, Bool(o.Reverse), Bool(all), B(o.Prefix), Bool(o.PrefixIsKey), o.Since, Bool(o.Internal), B(seek), ListOf(ts)),
+	// finding F33 (fixed): a forward Seek below the Prefix is clamped to the Prefix by the repaired
+	// Iterator.Seek; the model's `iterate` is the pinned code, so it is handed the clamped key
+	mseek := seek
+	if !o.Reverse && len(seek) > 0 && bytes.Compare(seek, o.Prefix) < 0 && seekClampFixed() {
+		mseek = o.Prefix
+	}
+	h.emit(fmt.Sprintf("(Iterate %d (mkIO %s %s %s %s %d %s) %s %s)", t, Bool(o.Reverse), Bool(all), B(o.Prefix), Bool(o.PrefixIsKey), o.Since, Bool(o.Internal), B(mseek), ListOf(ts)),
 		fmt.Sprintf("t%d iterate rev=%v all=%v prefix=%x pik=%v since=%d seek=%x -> %d items", t, o.Reverse, all, o.Prefix, o.PrefixIsKey, o.Since, seek, len(items)))
 	// oracle (non-AllVersions, user keys): exactly the visible keys in the range, in order
 	if bad {
